@@ -64,7 +64,11 @@ func newL1Env(n int, periods []time.Duration) *L1Env {
 }
 
 func newL1EnvAt(n int, periods []time.Duration, start time.Time) *L1Env {
-	e := &L1Env{L1: sim.NewL1(sim.L1Opts{StartTime: start}), Bridges: map[uint64]*BridgeRoles{}, Denoms: defaultDenoms}
+	return newL1EnvOpts(n, periods, sim.L1Opts{StartTime: start})
+}
+
+func newL1EnvOpts(n int, periods []time.Duration, opts sim.L1Opts) *L1Env {
+	e := &L1Env{L1: sim.NewL1(opts), Bridges: map[uint64]*BridgeRoles{}, Denoms: defaultDenoms}
 	for i := 0; i < 8; i++ {
 		u := sim.NewAccount(fmt.Sprintf("l1user%d", i))
 		e.Users = append(e.Users, u)
